@@ -2,8 +2,8 @@
 import ast
 
 from sa import guards as G
-from sa.flow import GuardMap, Provenance
-from sa.repo import AnchorError, call_name, calls_in, dotted, norm, walk_no_nested, kwarg
+from sa.flow import GuardMap, Provenance, Typestate
+from sa.repo import ordk, AnchorError, call_name, calls_in, dotted, norm, walk_no_nested, kwarg
 from sa.util import bind_args, calls_to
 from sa.vendors import load_rule_texts, load_vendors
 from rules.c18 import resolve_rulebook_function
@@ -98,6 +98,9 @@ def r2(c):
     dap = repo.func(API, "_diff_and_patch")
     e1 = bind_args(d1[0], dap).get("do_commit")
     e2 = kwarg(d2[0], "do_commit", 3)
+    pvr = Provenance(pr)
+    e1 = pvr.resolve_alias(e1) if e1 is not None else None
+    e2 = pvr.resolve_alias(e2) if e2 is not None else None
     t1, t2 = (norm(e1) if e1 is not None else None), (norm(e2) if e2 is not None else None)
     ok = t1 is not None and t1 == t2 and t1.replace(" ", "") in ("notself.args.dont_commit", "notargs.dont_commit")
     c.check("C09.R2", ok, repo.loc(am, d2[0]), "parse_result/do_commit", f"patch is built with do_commit={t1} but the deploy wrapper with do_commit={t2}; both must be `not args.dont_commit`",
@@ -213,7 +216,7 @@ def r4(c):
     c.check("C09.R4", ok, repo.loc(m, l2), "apply_deploy_rulebook/adjacent-grouping",
             f"commands are grouped by `{norm(it)[:70]}`; only adjacent grouping of the ordered list (itertools.groupby) keeps the shown order — collecting by wrapper key reorders "
             "commands across wrapper changes (A-B-A)", key_text="grouping")
-    between = [st for st in fn.body if st.lineno > l1.end_lineno and st.lineno < l2.lineno]
+    between = fn.body[fn.body.index(l1) + 1:fn.body.index(l2)] if l1 in fn.body and l2 in fn.body else []
     bad = [st for st in between if any(isinstance(x, ast.Call) and (call_name(x) in ("sorted",) or (isinstance(x.func, ast.Attribute) and x.func.attr in ("sort", "reverse")))
                                        for x in ast.walk(st) if not isinstance(st, ast.FunctionDef))]
     c.check("C09.R4", not bad, repo.loc(m, bad[0] if bad else l2), "apply_deploy_rulebook/no-resort", "the collected entries are re-sorted before being emitted", key_text="resort")
@@ -301,10 +304,22 @@ def r6(c):
     c.check("C09.R6", ok, repo.loc(tm, fn), "BlockExitFormatter/level-tracking", "the running block level does not start at context.level and move +1 on BlockBegin / -1 on BlockEnd", key_text="level-tracking")
     for q, d in tm.defs.items():
         if isinstance(d, ast.FunctionDef) and q.endswith(".block_exit") and not q.startswith("BlockExitFormatter."):
-            sup = [x for x in calls_in(d) if isinstance(x.func, ast.Attribute) and x.func.attr == "block_exit" and isinstance(x.func.value, ast.Call) and call_name(x.func.value) == "super"]
-            last = d.body[-1]
-            ok = bool(sup) and any(x is sup[0] for x in ast.walk(last))
-            c.check("C09.R6", ok, repo.loc(tm, d), f"{q}/falls-back-to-super", "the override does not end by delegating the remaining cases to super().block_exit(context)", key_text="super")
+            # every path through the override yields something of its own or reaches super().block_exit(context)
+            def on_stmt(node, st, ts):
+                if not isinstance(node, ast.stmt):
+                    return [st]
+                for x in ast.walk(node):
+                    if isinstance(x, ast.Call) and isinstance(x.func, ast.Attribute) and x.func.attr == "block_exit" and isinstance(x.func.value, ast.Call) and call_name(x.func.value) == "super":
+                        return ["done"]
+                    if isinstance(x, (ast.Yield, ast.YieldFrom)):
+                        return ["done"]
+                return [st]
+            res = Typestate(on_stmt).run(d.body, "none")
+            # an explicit `return` is a decision to emit nothing; falling off the end without having yielded or delegated is the forgotten default arm
+            ends = {rs for (rs, _f) in res["fall"]}
+            hist_ok = "none" not in ends
+            c.check("C09.R6", hist_ok, repo.loc(tm, d), f"{q}/falls-back-to-super", "some path through the override neither yields its own closing word nor delegates to super().block_exit(context)",
+                    key_text="super")
 
 
 def r7(c):
